@@ -426,15 +426,18 @@ inductive PwfStep | bad | skip | err (e : PyErr) | hit (v : ADT × Period)
 def pwfComplete (st : Settings) (f : String) (t : DT) : Except PyErr (DT × Period) := do
   let missingMonth := !(hasSub f "%m" || hasSub f "%b" || hasSub f "%B")
   let missingDay := !hasSub f "%d"
+  let yearless := !(hasSub f "%y" || hasSub f "%Y")
   let mut t := t
   let mut period := Period.day
+  -- the source fills the current year in before (`Gen.pwfYearFirst`) or after the completion of month and day
+  if yearless && Gen.pwfYearFirst then t ← t.replaceYear st.today.y
   if missingMonth && missingDay then
     period := .year; t ← setMonth st.preferMonth t st.today.mo; t ← setDay st.preferDay t st.today.d
   else if missingMonth then
     period := .year; t ← setMonth st.preferMonth t st.today.mo
   else if missingDay then
     period := .month; t ← setDay st.preferDay t st.today.d
-  if !(hasSub f "%y" || hasSub f "%Y") then t ← t.replaceYear st.today.y
+  if yearless && !Gen.pwfYearFirst then t ← t.replaceYear st.today.y
   return (t, period)
 
 /-- strictness as `parse_with_formats` applies it (only if the source calls `_check_strict_parsing` there) -/
